@@ -5,7 +5,7 @@ from .. import catalog as CAT
 
 ID = "C04"
 LEAN_MODULE = "Ucfg.Props.C04"
-LEVEL_TEXT = "Per-constructor validation theorems over the typed Unpack model, lifted to whole targets: unpack_flat_valid (structs of primitive fields) and unpack_plain_valid / unpack_plain_list_valid (structs, pointers, slices and fixed-size arrays nested to any depth, any tags except inline, any validators, pre-filled values and configuration: a nil error implies recValidate reports nothing; one induction over the fuel with a claim per model function - the attempt exposed defect D43). For map / interface{} / inline targets the lifted statement is PARTIAL: it is the Lean-evaluated oracle on the implementation's result over type-directed cases and a catalogue of named types with Validate/InitDefaults."
+LEVEL_TEXT = "Per-constructor validation theorems over the typed Unpack model, lifted to whole targets: unpack_flat_valid (structs of primitive fields) and unpack_plain_valid / unpack_plain_list_valid / unpack_plain_map_valid (structs, pointers, slices, fixed-size arrays and maps nested to any depth, any tags except inline, any validators, any well-shaped pre-filled value and any configuration: a nil error implies recValidate reports nothing; one induction over the fuel with a claim per model function, results keep the shape of the type - the attempt exposed defect D43). For interface{} / inline / regexp / Config targets the lifted statement is PARTIAL: it is the Lean-evaluated oracle on the implementation's result over type-directed cases and a catalogue of named types with Validate/InitDefaults."
 CORRESPONDENCE = "Unpack.{unpack,mergeValue,reifyValue,reifyMapT,reifyStructT,sliceMerge,doArray,recValidate,runValidators} ~ (*Config).Unpack into reflect.StructOf targets"
 RULE = ("type generator (structs nested through pointers, slices, arrays, maps, interface{} and inline fields, depth <= 4, random config "
         "tags incl. rename/inline/ignore/append/prepend/replace, random validate tags incl. duration bounds) realised with "
